@@ -46,6 +46,18 @@ class Run:
             self.seed = int(os.environ.get("VERIF_SEED", "0"))
         except ValueError:
             self.seed = 0
+        # --replay <file>: re-run the deterministic workload of the recorded seed and tier and
+        # report whether the recorded violation (same canonical key) shows again
+        self.replay_key = None
+        if self.replay:
+            try:
+                rec = json.load(open(self.replay))
+                self.seed = int(rec.get("seed", self.seed))
+                self.tier = rec.get("tier", self.tier)
+                self.replay_key = rec.get("key")
+            except (OSError, ValueError) as e:
+                print(f"cannot read replay file {self.replay}: {e}")
+                sys.exit(2)
         self.t0 = time.time()
         self.known = load_known(pid)
         self.violations = []      # (key, witness, replay path)
@@ -89,7 +101,7 @@ class Run:
         if any(k == key for k, _, _ in self.violations):
             return True
         path = None
-        if len(self.violations) < 50:
+        if len(self.violations) < 50 and self.replay is None:
             d = os.path.join(REPLAYS, self.pid)
             os.makedirs(d, exist_ok=True)
             h = hashlib.sha256(key.encode()).hexdigest()[:16]
@@ -129,6 +141,14 @@ class Run:
         for fid, n in sorted(self.known_hits.items()):
             s = self.known_samples[fid]
             print(f"KNOWN-FINDING: property={self.pid} {fid}: {s['what']} (seen {n}x, e.g. {s['key']})")
+        if self.replay_key is not None:
+            again = [v for v in self.violations if v[0] == self.replay_key]
+            print(f"REPLAY property={self.pid} key={self.replay_key} reproduced={'yes' if again else 'no'}")
+            if again:
+                print(json.dumps(again[0][1], indent=1, default=str)[:4000])
+                print(f"VIOLATION property={self.pid} replay={self.replay} key={self.replay_key}")
+            sys.stdout.flush()
+            sys.exit(1 if again else 0)
         for key, _w, path in self.violations[:50]:
             print(f"VIOLATION property={self.pid} replay={path} key={key}")
         nt = cov.get("distinct_nontrivial", 0)
